@@ -15,3 +15,10 @@ def day0 (d : Date) : Res Nat := match d.day with | .ok m => subOne m | .panic =
 def ordinal0 (d : Date) : Res Nat := subOne d.ordinal.toNat
 
 end Chrono.M.Date
+
+namespace Chrono.M.IsoWeek
+/-- `IsoWeek::week0` as the source has it: `((self.ywf >> 4) & 0x3f) as u32 - 1` — a `u32`
+subtraction, so a packed word with week field 0 panics in the overflow-checked build (like
+`month0`/`day0`/`ordinal0`; the totalised `IsoWeek.week0` of Model/Date.lean cannot say that) -/
+def week0r (ywf : Int) : Res Nat := Date.subOne ((ywf / 16) % 64).toNat
+end Chrono.M.IsoWeek
